@@ -11,10 +11,26 @@ use super::*;
 use crate::lexer::verif_h::any_token;
 use crate::lexer::{LiteralKind, Token, TokenKind};
 use crate::parser::verif_h::{instr_token, label_token, lit_token, reg_token, set_simple_tokens, trap_token};
-use crate::runtime::verif_h::{any_exec_effect, any_state, assert_unchanged, exec_calls, exec_instr, exec_pc, orig_of, peek, snap};
+use crate::runtime::verif_h::{any_exec_effect, light_state as any_state, assert_unchanged, exec_calls, exec_instr, exec_pc, orig_of, peek, snap};
 use crate::symbol::verif_h::{any_flag, any_register, any_trap_kind, table_put};
 use crate::symbol::{Flag, InstrKind, Register, TrapKind};
 use crate::verif_h::{capture, fits_signed, stubs};
+
+// Assume-guarantee split at `AsmParser::parse_simple`: reading the mnemonic back from the token vector makes
+// parse_instr's 20-way match symbolic for the symbolic executor (13-15 min per harness, measured), so here
+// parse_simple is replaced by its contract -- "returns Ok(stmt) for exactly one well-formed instruction, Err
+// otherwise" -- yielding an arbitrary statement of the harness's form; the contract itself is decided by
+// parser::verif_h::c01_pe_* (operands -> statement) and c15_parse_simple_* (first-token dispatch, surplus operands).
+static mut NEXT_STMT: Option<AirStmt> = None;
+impl crate::parser::AsmParser {
+    fn parse_simple_contract(&mut self) -> Result<AirStmt> {
+        #[allow(static_mut_refs)]
+        match unsafe { NEXT_STMT.take() } {
+            Some(s) => Ok(s),
+            None => Err(miette::Report::msg("")),
+        }
+    }
+}
 
 macro_rules! eval_attrs {
     ($(#[$m:meta])* fn $name:ident() $body:block) => {
@@ -24,10 +40,8 @@ macro_rules! eval_attrs {
         #[kani::stub(crate::symbol::with_symbol_table, stubs::with_symbol_table)]
         #[kani::stub(crate::output::Output::print_fmt, crate::output::verif_h::print_fmt_count)]
         #[kani::stub(crate::parser::AsmParser::new_simple, crate::parser::verif_h::new_simple_from_tokens)]
+        #[kani::stub(crate::parser::AsmParser::parse_simple, crate::parser::AsmParser::parse_simple_contract)]
         #[kani::stub(crate::runtime::RunState::execute, crate::runtime::verif_h::execute_recorder)]
-        #[kani::stub(crate::error::parse_generic_unexpected, crate::parser::verif_h::generic_unexpected_contract)]
-        #[kani::stub(crate::error::parse_lit_range, crate::parser::verif_h::lit_range_contract)]
-        #[kani::stub(crate::error::parse_eof, crate::parser::verif_h::eof_contract)]
         #[kani::stub(std::process::exit, crate::verif_h::exits::never)]
         $(#[$m])*
         fn $name() $body
@@ -38,11 +52,12 @@ fn rn(r: Register) -> u16 {
     r as u16
 }
 
-/// run eval_inner on the tokens; returns (machine snapshot comparison is done by the caller)
 static mut EFFECT: (u16, u16, u16) = (0, 0, 0);
-fn run_eval(s: &mut RunState, toks: Vec<Token>) -> bool {
-    set_simple_tokens(toks);
+/// run eval_inner with parse_simple answering `stmt` (None = "not exactly one well-formed instruction")
+fn run_eval(s: &mut RunState, stmt: Option<AirStmt>) -> bool {
+    set_simple_tokens(Vec::new());
     unsafe {
+        NEXT_STMT = stmt;
         EFFECT = any_exec_effect();
     }
     let r = eval_inner(s, "x");
@@ -51,220 +66,140 @@ fn run_eval(s: &mut RunState, toks: Vec<Token>) -> bool {
     ok
 }
 
-/// expected: executed exactly once, the given word, on the untouched machine
-/// registers, PC and CC unchanged.  (Memory is not probed in the recorder-based harnesses: eval hands the machine
-/// to nothing but `execute`, which is the recorder there; leaving the 64K object unread keeps these harnesses,
-/// which are full of small heap strings, out of the array-theory mode that such strings do not survive.)
-fn regs_unchanged(s: &RunState, pre: &crate::verif_h::Snap) {
+fn regs_equal(s: &RunState, want: &crate::verif_h::Snap) {
     let now = snap(s);
-    assert!(now.r[0] == pre.r[0] && now.r[1] == pre.r[1] && now.r[2] == pre.r[2] && now.r[3] == pre.r[3], "eval changed a register by itself");
-    assert!(now.r[4] == pre.r[4] && now.r[5] == pre.r[5] && now.r[6] == pre.r[6] && now.r[7] == pre.r[7], "eval changed a register by itself");
-    assert!(now.pc == pre.pc, "eval changed the PC by itself");
-    assert!(now.cc == pre.cc, "eval changed the condition code by itself");
+    assert!(now.r[0] == want.r[0] && now.r[1] == want.r[1] && now.r[2] == want.r[2] && now.r[3] == want.r[3], "eval changed a register by itself");
+    assert!(now.r[4] == want.r[4] && now.r[5] == want.r[5] && now.r[6] == want.r[6] && now.r[7] == want.r[7], "eval changed a register by itself");
+    assert!(now.pc == want.pc, "eval changed the PC by itself");
+    assert!(now.cc == want.cc, "eval changed the condition code by itself");
 }
-fn expect_executed(s: &RunState, pre: &crate::verif_h::Snap, _probe: u16, _pre_probe: u16, word: u16) {
+/// executed exactly once, exactly `word`, at the current PC, on the untouched machine; afterwards the machine is
+/// exactly what the execution left (pre-state plus the recorder's arbitrary effect)
+fn expect_executed(s: &RunState, pre: &crate::verif_h::Snap, word: u16) {
     assert!(exec_calls() == 1, "eval did not execute the instruction exactly once");
     assert!(exec_instr() == word, "eval executed another encoding than the instruction it was given");
     assert!(exec_pc() == pre.pc, "eval moved the PC before executing");
-    // the machine is exactly what the execution left: pre-state plus the recorder's arbitrary effect
     let (new_pc, reg, val) = unsafe { EFFECT };
     let mut want = *pre;
     want.pc = new_pc;
     want.r[reg as usize] = val;
-    regs_unchanged(s, &want);
+    regs_equal(s, &want);
 }
-fn expect_refused(s: &RunState, pre: &crate::verif_h::Snap, _probe: u16, _pre_probe: u16) {
+fn expect_refused(s: &RunState, pre: &crate::verif_h::Snap) {
     assert!(exec_calls() == 0, "eval executed something it must refuse");
-    regs_unchanged(s, pre);
+    regs_equal(s, pre);
     assert!(capture::len() == 0);
 }
 
-// ---- register / immediate forms
-eval_attrs! { fn c15_eval_add() {
+fn imm5_of(v: u8) -> u16 {
+    (v as u16) % 32
+}
+
+// ---- register / immediate / base+offset forms: executed once as their encoding
+eval_attrs! { fn c15_eval_alu_forms() {
     let mut s = any_state();
     let (dr, sr, r3) = (any_register(), any_register(), any_register());
-    let v: u16 = kani::any();
-    let third_reg: bool = kani::any();
-    let third = if third_reg { reg_token(r3) } else { lit_token(kani::any(), v) };
-    let probe: u16 = kani::any();
+    let v: u8 = kani::any();
+    kani::assume(v <= 15 || v >= 0xF0); // what parse_instr yields for an in-range imm5 (c01_pe_add_imm)
+    let off: u8 = kani::any();
+    kani::assume(off <= 31 || off >= 0xE0);
+    let which: u8 = kani::any();
+    kani::assume(which < 5);
     let pre = snap(&s);
-    let pre_probe: u16 = 0;
-    let _ = run_eval(&mut s, vec![instr_token(InstrKind::Add), reg_token(dr), reg_token(sr), third]);
-    if third_reg {
-        expect_executed(&s, &pre, probe, pre_probe, 0x1000 + rn(dr) * 512 + rn(sr) * 64 + rn(r3));
-    } else if fits_signed(v, 5) {
-        expect_executed(&s, &pre, probe, pre_probe, 0x1000 + rn(dr) * 512 + rn(sr) * 64 + 32 + v % 32);
-    } else {
-        expect_refused(&s, &pre, probe, pre_probe);
-    }
-    kani::cover!(!third_reg && v == 0xFFFF);
-    kani::cover!(!third_reg && v == 16);
-}}
-
-eval_attrs! { fn c15_eval_ldr() {
-    let mut s = any_state();
-    let (a, b) = (any_register(), any_register());
-    let v: u16 = kani::any();
-    let probe: u16 = kani::any();
-    let pre = snap(&s);
-    let pre_probe: u16 = 0;
-    let _ = run_eval(&mut s, vec![instr_token(InstrKind::Ldr), reg_token(a), reg_token(b), lit_token(kani::any(), v)]);
-    if fits_signed(v, 6) {
-        expect_executed(&s, &pre, probe, pre_probe, 0x6000 + rn(a) * 512 + rn(b) * 64 + v % 64);
-    } else {
-        expect_refused(&s, &pre, probe, pre_probe);
-    }
-    kani::cover!(v == 0xFFE0);
+    let (stmt, word) = match which {
+        0 => (AirStmt::Add { dest: dr, src_reg: sr, src_reg_imm: crate::air::ImmediateOrReg::Reg(r3) }, 0x1000 + rn(dr) * 512 + rn(sr) * 64 + rn(r3)),
+        1 => (AirStmt::And { dest: dr, src_reg: sr, src_reg_imm: crate::air::ImmediateOrReg::Imm5(v) }, 0x5000 + rn(dr) * 512 + rn(sr) * 64 + 32 + imm5_of(v)),
+        2 => (AirStmt::Not { dest: dr, src_reg: sr }, 0x9000 + rn(dr) * 512 + rn(sr) * 64 + 63),
+        3 => (AirStmt::LoadOffs { dest: dr, src_reg: sr, offset: off }, 0x6000 + rn(dr) * 512 + rn(sr) * 64 + (off as u16) % 64),
+        _ => (AirStmt::StoreOffs { src_reg: dr, dest_reg: sr, offset: off }, 0x7000 + rn(dr) * 512 + rn(sr) * 64 + (off as u16) % 64),
+    };
+    let _ = run_eval(&mut s, Some(stmt));
+    expect_executed(&s, &pre, word);
+    kani::cover!(which == 1 && v == 0xFF);
+    kani::cover!(which == 4 && off == 0xE0);
 }}
 
 // ---- label operands: the label denotes orig + line - 1 wherever the PC is
 macro_rules! eval_label {
-    ($name:ident, $kind:expr, $base:expr) => {
+    ($name:ident, |$r:ident, $l:ident| $stmt:expr, $base:expr) => {
         eval_attrs! { fn $name() {
             let mut s = any_state();
             let orig = orig_of(&s);
-            let l: u16 = kani::any();
-            kani::assume(l >= 1 && (orig as u32) + (l as u32) - 1 <= 0xFFFF);
-            table_put("ab", l);
-            let r = any_register();
-            let probe: u16 = kani::any();
-            let pre = snap(&s);
-            let pre_probe: u16 = 0;
-            let _ = run_eval(&mut s, vec![instr_token($kind), reg_token(r), label_token()]);
-            // the operand denotes address T; executing at PC (not incremented by eval) it must be PC + sext(field) == T,
-            // addresses being taken modulo 2^16 as everywhere in the VM: the distance is the signed 16-bit difference
-            let t: u16 = (orig as u32 + l as u32 - 1) as u16;
-            let d: i32 = (t.wrapping_sub(pre.pc) as i16) as i32;
-            if d >= -256 && d <= 255 {
-                expect_executed(&s, &pre, probe, pre_probe, $base + rn(r) * 512 + (d & 0x1FF) as u16);
-            } else {
-                // too far for the 9-bit field: must be refused, not wrapped onto another address
-                expect_refused(&s, &pre, probe, pre_probe);
+            let line: u16 = kani::any();
+            kani::assume(line >= 1 && (orig as u32) + (line as u32) - 1 <= 0xFFFF);
+            let defined: bool = kani::any();
+            if defined {
+                table_put("ab", line);
             }
-            kani::cover!(d >= -256 && d <= 255 && pre.pc != orig);
-            kani::cover!(d == -1);
-            kani::cover!(d > 255);
+            let $r = any_register();
+            // what parse_instr yields for a label operand: Ref(line) when the label is defined (always the case for
+            // eval: labels cannot be created), Unfilled(name) otherwise (c01_pe_*_label_before / _fwd)
+            let $l = if defined { crate::symbol::Label::Ref(line) } else { crate::symbol::Label::Unfilled(String::from("ab")) };
+            let pre = snap(&s);
+            let _ = run_eval(&mut s, Some($stmt));
+            // the operand denotes address T; executing at PC (not incremented by eval) it must be PC + sext(field) == T,
+            // addresses taken modulo 2^16 as everywhere in the VM: the distance is the signed 16-bit difference
+            let t: u16 = (orig as u32 + line as u32 - 1) as u16;
+            let d: i32 = (t.wrapping_sub(pre.pc) as i16) as i32;
+            if defined && d >= -256 && d <= 255 {
+                expect_executed(&s, &pre, $base + rn($r) * 512 + (d & 0x1FF) as u16);
+            } else {
+                // undefined label, or too far for the 9-bit field: refused, not wrapped onto another address
+                expect_refused(&s, &pre);
+            }
+            kani::cover!(defined && d >= -256 && d <= 255 && pre.pc != orig);
+            kani::cover!(defined && d > 255);
+            kani::cover!(!defined);
         }}
     };
 }
-eval_label!(c15_eval_ld_label, InstrKind::Ld, 0x2000u16);
-eval_label!(c15_eval_st_label, InstrKind::St, 0x3000u16);
-eval_label!(c15_eval_lea_label, InstrKind::Lea, 0xE000u16);
+eval_label!(c15_eval_ld_label, |r, l| AirStmt::Load { dest: r, src_label: l }, 0x2000u16);
+eval_label!(c15_eval_st_label, |r, l| AirStmt::Store { src_reg: r, dest_label: l }, 0x3000u16);
+eval_label!(c15_eval_lea_label, |r, l| AirStmt::LoadEAddr { dest: r, src_label: l }, 0xE000u16);
+eval_label!(c15_eval_ldi_label, |r, l| AirStmt::LoadInd { dest: r, src_label: l }, 0xA000u16);
 
-// ---- off-limits instructions: refused, no effect, session goes on
-eval_attrs! { fn c15_eval_refused_br() {
+// ---- off-limits instructions and malformed text: refused, no effect, session goes on
+eval_attrs! { fn c15_eval_refused() {
     let mut s = any_state();
-    table_put("ab", 1);
-    let use_label: bool = kani::any();
-    let operand = if use_label { label_token() } else { lit_token(kani::any(), kani::any()) };
-    let probe: u16 = kani::any();
+    let which: u8 = kani::any();
+    kani::assume(which < 5);
+    let v: u8 = kani::any();
     let pre = snap(&s);
-    let pre_probe: u16 = 0;
-    let _ = run_eval(&mut s, vec![instr_token(InstrKind::Br(any_flag())), operand]);
-    expect_refused(&s, &pre, probe, pre_probe);
-    kani::cover!(use_label);
-    kani::cover!(!use_label);
-}}
-
-eval_attrs! { fn c15_eval_traps_and_rti() {
-    let mut s = any_state();
-    let k = any_trap_kind();
-    let v: u16 = kani::any();
-    let rti: bool = kani::any();
-    let toks = if rti { vec![instr_token(InstrKind::Rti)] } else { vec![trap_token(k), lit_token(kani::any(), v)] };
-    let probe: u16 = kani::any();
-    let pre = snap(&s);
-    let pre_probe: u16 = 0;
-    // named traps take no operand: drop the literal for them
-    let toks = if !rti && !matches!(k, TrapKind::Generic) { vec![trap_token(k)] } else { toks };
-    let _ = run_eval(&mut s, toks);
-    let vector: Option<u16> = if rti {
-        None
-    } else {
-        match k {
-            TrapKind::Generic => if v <= 0xFF { Some(v) } else { None },
-            TrapKind::Getc => Some(0x20),
-            TrapKind::Out => Some(0x21),
-            TrapKind::Puts => Some(0x22),
-            TrapKind::In => Some(0x23),
-            TrapKind::Putsp => Some(0x24),
-            TrapKind::Halt => Some(0x25),
-            TrapKind::Putn => Some(0x26),
-            TrapKind::Reg => Some(0x27),
+    let stmt = match which {
+        0 => Some(AirStmt::Branch { flag: any_flag(), dest_label: crate::symbol::Label::Ref(kani::any()) }),
+        1 => Some(AirStmt::Interrupt),
+        2 => Some(AirStmt::Trap { trap_vect: 0x25 }),
+        3 => {
+            kani::assume(v < 0x20 || v > 0x27);
+            Some(AirStmt::Trap { trap_vect: v })
         }
+        _ => None, // not exactly one well-formed instruction (missing / surplus / wrong-kind operands, not an instruction)
     };
-    match vector {
-        Some(x) if x >= 0x20 && x <= 0x27 && x != 0x25 => expect_executed(&s, &pre, probe, pre_probe, 0xF000 + x),
-        _ => expect_refused(&s, &pre, probe, pre_probe),
-    }
-    kani::cover!(rti);
-    kani::cover!(matches!(k, TrapKind::Generic) && v == 0x25);
-    kani::cover!(matches!(k, TrapKind::Generic) && v == 0x28);
-    kani::cover!(matches!(k, TrapKind::Putn));
+    let _ = run_eval(&mut s, stmt);
+    expect_refused(&s, &pre);
+    kani::cover!(which == 3 && v == 0xA5);
+    kani::cover!(which == 4);
+    kani::cover!(which == 0);
 }}
 
-// ---- malformed: missing, surplus and wrong-kind operands => refused, no panic
-eval_attrs! { fn c15_eval_malformed_not() {
-    let mut s = any_state();
-    let n: usize = kani::any();
-    kani::assume(n <= 3);
-    let t1 = any_token(8);
-    let t2 = any_token(8);
-    let t3 = any_token(8);
-    // eval text is lexed without the directive preprocessor: no Byte / Breakpoint tokens can occur
-    kani::assume(!matches!(t1.kind, TokenKind::Byte(_) | TokenKind::Breakpoint));
-    kani::assume(!matches!(t2.kind, TokenKind::Byte(_) | TokenKind::Breakpoint));
-    kani::assume(!matches!(t3.kind, TokenKind::Byte(_) | TokenKind::Breakpoint));
-    let mut toks = vec![instr_token(InstrKind::Not)];
-    if n >= 1 { toks.push(t1); }
-    if n >= 2 { toks.push(t2); }
-    if n >= 3 { toks.push(t3); }
-    let probe: u16 = kani::any();
-    let pre = snap(&s);
-    let pre_probe: u16 = 0;
-    let _ = run_eval(&mut s, toks);
-    let well_formed = n == 2 && matches!(t1.kind, TokenKind::Reg(_)) && matches!(t2.kind, TokenKind::Reg(_));
-    if well_formed {
-        let (a, b) = match (t1.kind, t2.kind) { (TokenKind::Reg(a), TokenKind::Reg(b)) => (a, b), _ => unreachable!() };
-        expect_executed(&s, &pre, probe, pre_probe, 0x9000 + rn(a) * 512 + rn(b) * 64 + 63);
-    } else {
-        expect_refused(&s, &pre, probe, pre_probe);
-    }
-    kani::cover!(well_formed);
-    kani::cover!(n == 3 && matches!(t1.kind, TokenKind::Reg(_)) && matches!(t2.kind, TokenKind::Reg(_))); // surplus operand
-    kani::cover!(n == 1);
-}}
-
-/// first token is not an instruction: refused
-eval_attrs! { fn c15_eval_not_an_instruction() {
-    let mut s = any_state();
-    let t = any_token(8);
-    kani::assume(!matches!(t.kind, TokenKind::Instr(_) | TokenKind::Trap(_) | TokenKind::Byte(_) | TokenKind::Breakpoint));
-    let empty: bool = kani::any();
-    let probe: u16 = kani::any();
-    let pre = snap(&s);
-    let pre_probe: u16 = 0;
-    let _ = run_eval(&mut s, if empty { Vec::new() } else { vec![t] });
-    expect_refused(&s, &pre, probe, pre_probe);
-    kani::cover!(empty);
-    kani::cover!(matches!(t.kind, TokenKind::Dir(_)));
-}}
-
-// ---- jumps: RET / JMP r / JSRR r are executed like anything else (exactly their encoding, once), and what the
+// ---- the traps the VM knows (x20-x27 except HALT) and jumps are executed like anything else, and what the
 // execution does to the PC stays (the recorder's arbitrary new PC survives: eval does not "restore" anything)
-eval_attrs! { fn c15_eval_jumps() {
+eval_attrs! { fn c15_eval_traps_jumps() {
     let mut s = any_state();
     let r = any_register();
+    let v: u8 = kani::any();
+    kani::assume(v >= 0x20 && v <= 0x27 && v != 0x25);
     let which: u8 = kani::any();
-    kani::assume(which < 3);
+    kani::assume(which < 4);
     let pre = snap(&s);
-    let (toks, word) = match which {
-        0 => (vec![instr_token(InstrKind::Ret)], 0xC1C0),
-        1 => (vec![instr_token(InstrKind::Jmp), reg_token(r)], 0xC000 + rn(r) * 64),
-        _ => (vec![instr_token(InstrKind::Jsrr), reg_token(r)], 0x4000 + rn(r) * 64),
+    let (stmt, word) = match which {
+        0 => (AirStmt::Return, 0xC1C0),
+        1 => (AirStmt::Jump { src_reg: r }, 0xC000 + rn(r) * 64),
+        2 => (AirStmt::JumpSubReg { src_reg: r }, 0x4000 + rn(r) * 64),
+        _ => (AirStmt::Trap { trap_vect: v }, 0xF000 + v as u16),
     };
-    let _ = run_eval(&mut s, toks);
-    expect_executed(&s, &pre, 0, 0, word);
+    let _ = run_eval(&mut s, Some(stmt));
+    expect_executed(&s, &pre, word);
     kani::cover!(which == 0);
-    kani::cover!(which == 2 && rn(r) == 7);
+    kani::cover!(which == 3 && v == 0x27);
 }}
